@@ -48,22 +48,23 @@ type TxRecord struct {
 }
 
 type BlockRecord struct {
-	H        int64            `json:"h"`
-	Secs     int64            `json:"secs"` // block time in seconds since genesis
-	Proposer string           `json:"proposer"`
-	Votes    []Vote           `json:"votes"`
-	Byz      []Byz            `json:"byz"`
-	Txs      []TxRecord       `json:"txs"`
-	Results  []TxResult       `json:"results"`
-	Updates  []NUpdate        `json:"updates"`
-	UpdErr   string           `json:"updErr,omitempty"`
-	Hash     string           `json:"hash"`
-	Events   []Event          `json:"events"`
-	Order    string           `json:"order"` // digest of the write order of the block
-	NewKeys  int              `json:"newKeys"`
-	State    *AbsState        `json:"state,omitempty"`
-	Set      map[string]int64 `json:"set"`  // validator set in effect at this height
-	Next     map[string]int64 `json:"next"` // Tendermint's next set, to which this block's updates are applied
+	H            int64            `json:"h"`
+	Secs         int64            `json:"secs"` // block time in seconds since genesis
+	Proposer     string           `json:"proposer"`
+	Votes        []Vote           `json:"votes"`
+	Byz          []Byz            `json:"byz"`
+	Txs          []TxRecord       `json:"txs"`
+	Results      []TxResult       `json:"results"`
+	Updates      []NUpdate        `json:"updates"`
+	UpdErr       string           `json:"updErr,omitempty"`
+	Hash         string           `json:"hash"`
+	Events       []Event          `json:"events"`
+	Order        string           `json:"order"` // digest of the write order of the block
+	NewKeys      int              `json:"newKeys"`
+	State        *AbsState        `json:"state,omitempty"`
+	Set          map[string]int64 `json:"set"` // validator set in effect at this height
+	Next         map[string]int64 `json:"next"`
+	witnessOrder []string         // the witness list in store order (for the wrapped-currency allowance) // Tendermint's next set, to which this block's updates are applied
 }
 
 // NUpdate is a validator update with the validator's model name.
